@@ -100,7 +100,12 @@ def depthAfter (toks : List Tok) : Nat :=
 `k` is the end of token `i` and the bracket depth after tokens `0..i` is positive or token `i` is a
 binary operator; or `k` lies strictly inside a block-comment token, or just before the closing quote
 of a string token. Returns a tag. -/
-def cutKind (toks : List Tok) (k : Nat) : Option String :=
+def isWsByte (b : UInt8) : Bool := b = 32 || b = 9 || b = 10 || b = 13
+
+/-- the offset of a token's first byte: `posBefore` plus the whitespace the lexer skipped -/
+def tokStart (src : Bytes) (t : Tok) : Nat := t.posBefore + ((src.drop t.posBefore).takeWhile isWsByte).length
+
+def cutKind (src : Bytes) (toks : List Tok) (k : Nat) : Option String :=
   let rec go (before : List Tok) (rest : List Tok) : Option String :=
     match rest with
     | [] => none
@@ -112,20 +117,21 @@ def cutKind (toks : List Tok) (k : Nat) : Option String :=
           some "empty-parens"      -- `()` of `() => …`
         else if depthAfter upTo > 0 then some "in-bracket"
         else if isBinaryOp t.type then some "after-binop"
+        else if t.type = .DOT || t.type = .LAMBDA then some "after-dot-or-arrow"   -- `a.` and `x =>` also wait for their right side
         else none
-      else if t.type = .STRING && k + 1 = t.posAfter then some "in-string"      -- just before the closing quote
-      -- inside the comment: the opener `/*` is complete (after one byte the prefix is a lone `/`)
+      else if t.type = .STRING && tokStart src t < k && k < t.posAfter then some "in-string"      -- after the opening, before the closing quote
+      -- inside an unclosed block comment: at least the opener `/*` is there (a cut between `/` and `*` leaves no comment)
       else if t.type = .BLOCKCOMMENT && t.posAfter - t.lit.length + 2 ≤ k && k < t.posAfter then some "in-comment"
       else go (before ++ [t]) rest'
   go [] toks
 
 /-- part 2 -/
-def c15Cut (f : Fields) (k : Nat) : Bool × Option String :=
+def c15Cut (src : Bytes) (f : Fields) (k : Nat) : Bool × Option String :=
   if !valid f "W." then (true, none) else
   match (f.get "W.toks").bind parseStream with
   | none => (true, none)
   | some s =>
-    match cutKind s.toks k with
+    match cutKind src s.toks k with
     | none => (true, none)
     | some kind => (f.is "L.p" "0" && f.is "L.c" "1" && f.is "L.e" "0", some kind)
 
@@ -146,6 +152,12 @@ inductive Prop' | c08 | c15
 def hasFakeClosedComment (s : TokStream) : Bool :=
   s.toks.any fun t => t.type = .BLOCKCOMMENT && t.posAfter ≥ s.inputLen && t.lit.length < 4
 
+/-- `{` minus `}` over the whole stream: positive when a block (or map literal) is still open at the end -/
+def braceDepth (s : TokStream) : Nat :=
+  s.toks.foldl (fun d t => if t.type = .LBRACE then d + 1 else if t.type = .RBRACE then d - 1 else d) 0
+
+def streamOf (f : Fields) (k : String) : Option TokStream := (f.get k).bind parseStream
+
 def topTags (r : ParseResult) : List String :=
   (if r.errors > 0 then ["errors"] else if r.cont then ["continuation"] else ["clean"]) ++
   (match r.program.getLast? with
@@ -158,7 +170,8 @@ def topTags (r : ParseResult) : List String :=
 
 def runCase (prop : Prop') (inp obs : String) : CaseResult :=
   let impl := parseFields obs
-  let (_, cut) := splitInput inp
+  let (srcHex, cut) := splitInput inp
+  let src := (bytesOfHex srcHex).getD []
   let w := if cut.isSome then modelParse impl "W." false else { fields := [], res := none }
   let fm := modelParse impl "F." true
   let lm := modelParse impl "L." true
@@ -171,7 +184,7 @@ def runCase (prop : Prop') (inp obs : String) : CaseResult :=
     | .c15 =>
       match cut with
       | none => (c15SameTree f, none)
-      | some k => c15Cut f k
+      | some k => c15Cut src f k
   let (sm, kind) := stmt model
   let (si, _) := stmt impl
   -- C08 also checks, on the real lexer's streams, the two lexer facts the no-panic theorem assumes
@@ -189,8 +202,10 @@ def runCase (prop : Prop') (inp obs : String) : CaseResult :=
     | .c15 =>
       match cut with
       | none =>
-        -- file mode accepts a block that is still open at the end of the input
-        if valid model "F." && model.is "L.c" "1" then "file-mode-accepts-unclosed-block" else ""
+        -- file mode accepts a block that is still open at the end of the input (and only then: a line mode that
+        -- asks for more input after a text whose braces are balanced is not this finding)
+        if valid model "F." && model.is "L.c" "1" && ((streamOf impl "F.toks").map braceDepth).getD 0 > 0
+        then "file-mode-accepts-unclosed-block" else ""
       | some _ =>
         match kind with
         | some "in-string" => "unclosed-string-after-statement"
